@@ -174,8 +174,8 @@ Inductive case :=
 (* streamTo on [input] (bufio size B, writer budget) returned (n, err, clean), wrote [written], and a
    following read on the connection saw [after] *)
 | CStream (B : N) (budget : option N) (input : bytes) (n : Z) (err : serr) (clean : bool) (written after : bytes)
-(* the same for the prefixes of [input] of the listed lengths: (k, n, err, clean) *)
-| CStreamTrunc (B : N) (input : bytes) (samples : list (nat * Z * serr * bool)).
+(* the same (with the given writer budget) for the prefixes of [input] of the listed lengths: (k, n, err, clean) *)
+| CStreamTrunc (B : N) (budget : option N) (input : bytes) (samples : list (nat * Z * serr * bool)).
 
 Definition check_stream (B : nat) (budget : option N) (input : bytes) (n : Z) (err : serr) (clean : bool)
     (written : option bytes) (after : option bytes) : bool :=
@@ -189,7 +189,7 @@ Definition check_case (c : case) : bool :=
   match c with
   | CStream B budget input n err clean written after =>
       check_stream (N.to_nat B) budget input n err clean (Some written) (Some after)
-  | CStreamTrunc B input samples =>
+  | CStreamTrunc B budget input samples =>
       forallb (fun s => let '(k, n, err, clean) := s in
-                        check_stream (N.to_nat B) None (firstn k input) n err clean None None) samples
+                        check_stream (N.to_nat B) budget (firstn k input) n err clean None None) samples
   end.
